@@ -29,11 +29,13 @@ var idxNoneXXY = [][]string{{}, {"x"}, {"x", "xy"}}
 
 // snapshot of the committed raw content, to state "unchanged"
 func snapshot(ms *memstore.Store) []memstore.KV {
+	refresh(ms)
 	return append([]memstore.KV{}, ms.Data...)
 }
 
 // unchanged: committed content is byte-identical (document/metadata blobs are immutable values).
 func unchanged(ms *memstore.Store, pre []memstore.KV) bool {
+	refresh(ms)
 	if len(ms.Data) != len(pre) {
 		return false
 	}
@@ -55,6 +57,9 @@ func quiescent(label string, ms *memstore.Store) {
 // txDiscipline checks C05/C07-P1 for one public write operation from the store's event log:
 // exactly one write transaction, committed exactly once iff the operation succeeded, all writes inside it.
 func txDiscipline(label string, ms *memstore.Store, logStart int, commitsBefore int, err error) {
+	if refreshers[ms] != nil {
+		return // the transaction log exists only on the reference store
+	}
 	writeTx, readTx, commits, writesAfterCommit, writes := 0, 0, 0, 0, 0
 	committed := map[int]bool{}
 	for _, ev := range ms.Log[logStart:] {
@@ -425,3 +430,19 @@ func H_ops_index_sym() { opsIndex(opValSym) }
 
 //verif:harness props=C14,C06,C18 tier=quick bounds="as H_ops_index for the dotted pair n / n.a: documents whose n is an object {a: string, b: nil/float} or a plain value; indexes on n (keys whole objects) and on n.a (keys the member); create/drop either, the other keeps serving exact results; audit"
 func H_ops_index_dotted() { opsIndexFields(opValConc, "n", "n.a") }
+
+//verif:harness props=C03,C06,C15 tier=thorough bounds="H_ops_delete and H_ops_update (field values from {-1.5,0,2.5}, symbolic literals and new values) with the database opened over the real bbolt adapter and over the real badger adapter (library contract stubs; real libraries in replay): same specification and raw-store audit, read back through the store interface"
+func H_ops_bulk_adapters() {
+	envBackend = 1 + nd.Choice("backend", 2)
+	if nd.Choice("family", 2) == 0 {
+		opsDelete(opValConc)
+	} else {
+		opsUpdate(opValConc)
+	}
+}
+
+//verif:harness props=C03,C15,C08 tier=thorough bounds="H_C03_windowed_bulk over the real bbolt and badger adapters"
+func H_C03_windowed_bulk_adapters() {
+	envBackend = 1 + nd.Choice("backend", 2)
+	H_C03_windowed_bulk()
+}
